@@ -19,6 +19,12 @@ type serveEffects struct {
 }
 
 func (c *Ctx) writeOf(in ssa.Instruction) (pktT string, id ssa.Value, ok bool) {
+	return c.writeOfN(in, nil)
+}
+
+// writeOfN is writeOf with the operand narrowed to what it holds on the paths under consideration (a join of the packets
+// packed per case, written once below the cases).
+func (c *Ctx) writeOfN(in ssa.Instruction, narrow func(ssa.Value, ssa.Instruction) ssa.Value) (pktT string, id ssa.Value, ok bool) {
 	k, isCall := in.(*ssa.Call)
 	if !isCall {
 		return "", nil, false
@@ -42,6 +48,9 @@ func (c *Ctx) writeOf(in ssa.Instruction) (pktT string, id ssa.Value, ok bool) {
 		}
 	default:
 		return "", nil, false
+	}
+	if narrow != nil {
+		operand = narrow(operand, in)
 	}
 	pt, pcall := c.packedType(operand)
 	if pcall == nil {
@@ -252,6 +261,21 @@ func checkC04(r *Run) {
 		key := "serve/PUBLISH[QoS" + string(rune('0'+q)) + "]"
 		pq := PathQ{BlockEdge: qf(q), BlockInstr: stopAtRead}
 		region := ReachableFromBlock(f, start, pq)
+		// what a variable assigned per QoS case holds at an instruction below the cases, on the paths of this level
+		valsAt := func(v ssa.Value, at ssa.Instruction) []ssa.Value {
+			if phi, isPhi := c.Resolve(v).(*ssa.Phi); isPhi && phi.Parent() == f {
+				if vs, reached := valuesAlongQ(f, okEdges[0], at, phi, pq); reached && len(vs) > 0 {
+					return vs
+				}
+			}
+			return []ssa.Value{v}
+		}
+		narrow := func(v ssa.Value, at ssa.Instruction) ssa.Value {
+			if vs := valsAt(v, at); len(vs) == 1 {
+				return vs[0]
+			}
+			return v
+		}
 		var serves []*srvEff
 		var writes []ssa.Instruction
 		var stores []*ssa.MapUpdate
@@ -296,8 +320,11 @@ func checkC04(r *Run) {
 				bad(pub.Parse.Pos(), "a QoS %d PUBLISH is never handed to the handler", q)
 			}
 			for _, s := range serves {
-				if !isParsedMsg(s.Arg) {
-					bad(s.Call.Pos(), "the handler receives something other than the message parsed from this packet")
+				for _, av := range valsAt(s.Arg, s.Call) {
+					if !isParsedMsg(av) {
+						bad(s.Call.Pos(), "the handler receives something other than the message parsed from this packet")
+						break
+					}
 				}
 				// at most once per packet
 				if _, again := CanReach(f, s.Call, func(x ssa.Instruction) bool { _, ok := c.serveEff(x); return ok }, pq); again {
@@ -337,7 +364,7 @@ func checkC04(r *Run) {
 				bad(pub.Parse.Pos(), "a QoS %d PUBLISH is answered by %d write sites (want exactly one %s)", q, len(writes), want)
 			} else {
 				w := writes[0]
-				pt, id, _ := c.writeOf(w)
+				pt, id, _ := c.writeOfN(w, narrow)
 				if pt != want {
 					bad(w.Pos(), "a QoS %d PUBLISH is answered with %s instead of %s", q, pt, want)
 				}
@@ -475,7 +502,26 @@ func checkC04(r *Run) {
 					if c.Resolve(s.Arg) != val {
 						bad(s.Call.Pos(), "what is handed over on PUBREL is not the message stored under the PUBREL's identifier")
 					}
+					// a hit yields one of the values stored in the buffer: when every store puts a message known to be non-nil
+					// there, the "held message is nil" side of a test of it is taken by no execution
+					storedNonNil := buf != nil
+					nStored := 0
+					eachInstr(f, func(in ssa.Instruction) {
+						if mu, ok := in.(*ssa.MapUpdate); ok && buf != nil && mu.Map == ssa.Value(buf) {
+							nStored++
+							if !c.knownNonNil(c.Resolve(mu.Value), map[ssa.Value]bool{}) {
+								storedNonNil = false
+							}
+						}
+					})
 					exempt := func(b *ssa.BasicBlock, k int) bool {
+						if storedNonNil && nStored > 0 {
+							for _, e := range nilEdges(f, val) {
+								if e.B == b && e.K == k {
+									return true
+								}
+							}
+						}
 						if s.Handler == nil {
 							return false
 						}
